@@ -49,7 +49,8 @@ def run(tier, seed):
             post = r.get("post")
             if post and o["op"] == "handoff":
                 s = post[0]["ret"]["summary"]
-                resolvable = bool(s) and (s.get("markdown_inline") or s.get("artifact_readable"))
+                # the code resolves a handoff's summary through its artifact (the bundle is written when only text is given)
+                resolvable = bool(s) and s.get("artifact_readable") is True
                 named_unreadable = bool(s) and s.get("artifact_named") and s.get("artifact_readable") is False
                 if not resolvable or named_unreadable:
                     key = "D16a-handoff-unknown-artifact" if o["z"] in (1, 3) else None
@@ -57,6 +58,30 @@ def run(tier, seed):
         if len(v.cov["samples"]) < 3 and e["ok"] and o["x"] == 2:
             v.sample({"path": c["path"], "op": c["trans"][k]["op"], "predicted": e, "real": r["ret"],
                       "new_frames": [(f["stream"], f["seq"], f["kind"]) for f in r["log"]["new_frames"]]})
+    # ---- the artifact store cannot be written (its blobs directory is a plain file): a handoff given only text must fail and
+    #      record nothing; once the store is mended it works again
+    hist = []
+    for n, extra in enumerate(([], [{"op": "run_spawned", "t": 0, "m": 0, "s": 0}, {"op": "run_ended", "t": 0, "m": 0, "s": 0}])):
+        base = [{"op": "ensure_default"}, {"op": "message", "t": 0}] + extra + [{"op": "message", "t": 0}]
+        hist.append({"id": f"fault{n}", "ops": base + [{"op": "break_artifacts"}, {"op": "handoff", "t": 0, "summary": "summary text"},
+                                                       {"op": "handoff", "t": 0, "summary": "summary text", "from_msg": 0}, {"op": "handoff_frames"},
+                                                       {"op": "mend_artifacts"}, {"op": "handoff", "t": 0, "summary": "summary text"}, {"op": "handoff_frames"}]})
+    for r in run_harness("hist", hist, wd, "fault", shards=2, timeout=300):
+        res = r["results"]
+        v.add_eval({"artifact_fault": r["id"]}, True)
+        tail = res[-7:]
+        bad1 = tail[3]["ret"] or []
+        bad2 = tail[6]["ret"] or []
+        rep = {"engine": "hist", "case": [h for h in hist if h["id"] == r["id"]][0]}
+        for fr in bad1 + bad2:
+            if not (fr.get("artifact_named") and fr.get("artifact_readable")):
+                v.violation(f"a handoff lineage frame without a resolvable summary artifact was recorded while the artifact store could not be written: {fr}", rep)
+                break
+        if tail[1]["ok"] or tail[2]["ok"]:
+            if not any(not (fr.get("artifact_named") and fr.get("artifact_readable")) for fr in bad1):
+                v.drift({"case": r["id"], "note": "handoff succeeded although the artifact store is a plain file"})
+        if not tail[5]["ok"]:
+            v.violation(f"handoff still fails after the artifact store was mended: {str(tail[5]['ret'])[:160]}", rep)
     v.assumptions += ["source threads <= MaxFrames frames (exhaustive within the configuration)"]
     return v.finish(
         rule="cases = (distinct store state, branch/handoff request) pairs: every selector class of Threads.tla!OpsFor; "
